@@ -1,4 +1,5 @@
 import AcraModel.KeystoreSec.ExportV1
+import AcraModel.KeystoreSec.V1NamesLemmas
 /-!
 Helper lemmas for the v1 export / import model: file maps, sealability of exported secrets, the
 import loop.
@@ -162,5 +163,71 @@ theorem loadSecret_sealable (e : Env) (hl : SealLaws e.c) (s : Store) (name : By
   | some ct =>
     simp only [hf, Option.bind_some] at h
     exact sealable_of_dec hl h
+
+theorem loadSecret_map_sealable (e : Env) (hl : SealLaws e.c) (s : Store) (name : Bytes) (kc : KeyContext)
+    (f : Bytes → Record) (r : Record) (h : (loadSecret e s name kc).map f = some r) : ∃ k, r = f k ∧ Sealable k := by
+  cases hs : loadSecret e s name kc with
+  | none => simp [hs] at h
+  | some k =>
+    simp only [hs, Option.map_some, Option.some.injEq] at h
+    exact ⟨k, h.symm, loadSecret_sealable e hl s _ _ _ hs⟩
+
+/-- every secret an export emits can be sealed again -/
+theorem exportRecords_sealable (e : Env) (hl : SealLaws e.c) (S : Store) (ids : List ExportID) (mode : Mode)
+    (recs : List Record) (h : exportRecords e S ids mode = some recs) :
+    ∀ r ∈ recs, isPrivate r.1 = true → Sealable r.2 := by
+  intro r hr hp
+  unfold exportRecords exportRecordsWith at h
+  by_cases hids : ids ≠ []
+  · rw [if_pos hids] at h
+    obtain ⟨x, _, hx⟩ := mapM_mem' _ _ _ h r hr
+    unfold exportOne at hx
+    cases hk : x.kind <;> simp only [hk] at hx
+    · -- poison public: not a private name
+      cases hg : getPoisonKeyPair e S with
+      | none => simp [hg] at hx
+      | some pp =>
+        simp only [hg, Option.bind_some] at hx
+        split at hx
+        · cases hx
+          have : isPrivate poisonPub = false := by decide
+          rw [this] at hp; cases hp
+        · cases hx
+    · cases hg : getPoisonKeyPair e S with
+      | none => simp [hg] at hx
+      | some pp =>
+        simp only [hg, Option.map_some, Option.some.injEq] at hx
+        subst hx
+        unfold getPoisonKeyPair at hg
+        cases hs : loadSecret e S poisonKey poisonPairCtx with
+        | none => simp [hs] at hg
+        | some priv =>
+          simp only [hs, Option.bind_some] at hg
+          cases hpub : S.files.get poisonPub with
+          | none => simp [hpub] at hg
+          | some pub =>
+            simp only [hpub, Option.map_some, Option.some.injEq] at hg
+            subst hg
+            exact loadSecret_sealable e hl S _ _ _ hs
+    · cases hg : S.files.get (storagePubName x.ctx) with
+      | none => simp [hg] at hx
+      | some pub =>
+        simp only [hg, Option.bind_some] at hx
+        split at hx
+        · cases hx
+          have : isPrivate (storagePubName x.ctx) = false := by
+            simp only [storagePubName]; exact isPrivate_pub _
+          rw [this] at hp; cases hp
+        · cases hx
+    · obtain ⟨k, rfl, hk⟩ := loadSecret_map_sealable e hl S _ _ _ r hx; exact hk
+    · obtain ⟨k, rfl, hk⟩ := loadSecret_map_sealable e hl S _ _ _ r hx; exact hk
+    · obtain ⟨k, rfl, hk⟩ := loadSecret_map_sealable e hl S _ _ _ r hx; exact hk
+    · cases hx
+  · rw [if_neg hids] at h
+    split at h
+    · obtain ⟨f, _, hfr⟩ := mapM_mem' _ _ _ h r hr
+      obtain ⟨_, h2, _⟩ := readFileAsKey_spec e ctxOfName S.master f r hfr
+      exact sealable_of_dec hl (h2 hp)
+    · cases h; cases hr
 
 end AcraModel.KeystoreSec.ExportV1
